@@ -96,6 +96,7 @@ for _k, _v in CENSUS.items():
 
 def run(ctx, pid):
     from engine import census
+    ctx._ref_done = True
     for f in CENSUS.get(pid, []):
         census.check(ctx, pid + '.ref', f.lstrip('+~!').split('@')[0])
 
